@@ -92,6 +92,30 @@ func (x *Exec) call(s *State, f *Frame, ins *ssa.Call) (stepResult, []*State, st
 		outs := in(x, s, args, ins)
 		return x.finishCall(s, f, ins, outs)
 	}
+	if name == "html.UnescapeString" {
+		// a pure function: reuse the result of an earlier call on the very same bytes
+		if str, ok := args[0].(Str); ok {
+			var kb strings.Builder
+			kb.WriteString(name)
+			for _, t := range str.B {
+				if t.IsConst() {
+					fmt.Fprintf(&kb, "|c%d", t.Val)
+				} else {
+					fmt.Fprintf(&kb, "|%d", t.ID())
+				}
+			}
+			key := kb.String()
+			if v, hit := s.Memo[key]; hit {
+				f.Regs[ins] = v
+				f.IP++
+				f.AtStart = false
+				return stepCont, nil, stopPoint{}
+			}
+			nf := x.pushFrame(s, fn, args, env, ins)
+			nf.MemoKey = key
+			return stepCont, nil, stopPoint{}
+		}
+	}
 	x.pushFrame(s, fn, args, env, ins)
 	return stepCont, nil, stopPoint{}
 }
